@@ -6,6 +6,7 @@ package main
 import (
 	"fmt"
 	"go/types"
+	"os"
 	"strings"
 	"sync"
 
@@ -23,13 +24,17 @@ type G struct {
 	fnv     Value
 	args    []Value
 	held    []*mutexState // locks currently held (lockset)
+	announced []*Chan      // unbuffered channels this goroutine is parked receiving on
+	committed *Chan        // unbuffered channel on which a sender has handed it a value
+	spin      int
 	role    string
 }
 
 type Chan struct {
-	buf    []Value
-	cap    int
-	closed bool
+	buf     []Value
+	cap     int
+	closed  bool
+	waiters []*G // goroutines parked in a receive (or a select with a receive case) on this channel
 	ctx    *Ctx  // Done() channel of a context
 	tick   *Value // ticker channel (harness/stub driven)
 	nrecv  int
@@ -191,6 +196,7 @@ func (in *Interp) pick(not *G) *G {
 func (in *Interp) block(ready func() bool, what string) {
 	for !ready() {
 		g := in.cur
+		g.spin = 0
 		g.waiting = ready
 		g.what = what
 		next := in.pickNext(g)
@@ -228,6 +234,21 @@ func (in *Interp) schedPoint(what string) {
 	if !in.schedExp || in.preempts >= in.preemptBound {
 		return
 	}
+	if in.schedCoarse {
+		if what == "lock" || what == "unlock" || what == "atomic" {
+			return // coarse exploration: only channel, select, cancel and go statements are switch points
+		}
+		// a program point reached again and again by the same goroutine (a polling loop) is a switch
+		// point only the first two times
+		if in.pointSeen == nil {
+			in.pointSeen = map[pointKey]int{}
+		}
+		k := pointKey{in.cur.id, in.curIns}
+		in.pointSeen[k]++
+		if in.pointSeen[k] > 2 {
+			return
+		}
+	}
 	var cands []*G
 	cands = append(cands, in.cur)
 	for _, g := range in.gs {
@@ -237,6 +258,9 @@ func (in *Interp) schedPoint(what string) {
 	}
 	if len(cands) <= 1 {
 		return
+	}
+	if os.Getenv("GOSYM_DEBUG_SCHED") != "" && in.ex.pathNo == 0 {
+		fmt.Fprintf(os.Stderr, "SCHEDPOINT g%d %s %s cands=%d\n", in.cur.id, what, in.pos(in.curIns), len(cands))
 	}
 	k := in.ex.choose(len(cands), "sched:"+what)
 	if k != 0 {
@@ -249,6 +273,18 @@ func (in *Interp) schedPoint(what string) {
 func (in *Interp) pickNext(not *G) *G {
 	if !in.schedExp {
 		return in.pick(not)
+	}
+	if in.schedCoarse {
+		// coarse mode: no branching at blocking points; a rotating deterministic choice instead
+		// (the rotation offset is a harness parameter, so different jobs use different orders)
+		n := len(in.gs)
+		for k := 0; k < n; k++ {
+			g := in.gs[(k+in.pickRot)%n]
+			if g != not && g.runnable() {
+				return g
+			}
+		}
+		return nil
 	}
 	var cands []*G
 	for _, g := range in.gs {
@@ -299,15 +335,52 @@ func (in *Interp) chanSendReady(c *Chan) bool {
 		return true // will panic
 	}
 	if c.cap == 0 {
-		return len(c.buf) == 0
+		// rendezvous: a send can proceed only if a receiver is parked on the channel and no
+		// value is already in flight to it
+		return len(c.buf) == 0 && len(c.waiters) > 0
 	}
 	return len(c.buf) < c.cap
 }
 
+func (c *Chan) addWaiter(g *G) {
+	for _, w := range c.waiters {
+		if w == g {
+			return
+		}
+	}
+	c.waiters = append(c.waiters, g)
+}
+
+func (c *Chan) dropWaiter(g *G) {
+	for i, w := range c.waiters {
+		if w == g {
+			c.waiters = append(c.waiters[:i:i], c.waiters[i+1:]...)
+			return
+		}
+	}
+}
+
 func (in *Interp) chanRecv(c *Chan, where string) (Value, bool) {
 	in.schedPoint("recv")
+	if c != nil && c.cap == 0 && c.ctx == nil && c.tick == nil && !in.chanRecvReady(c) {
+		g := in.cur
+		c.addWaiter(g)
+		g.announced = []*Chan{c}
+		in.block(func() bool { return in.chanRecvReady(c) }, "chan receive at "+where)
+		in.retract(g)
+		g.committed = nil
+		return in.takeFrom(c)
+	}
 	in.block(func() bool { return in.chanRecvReady(c) }, "chan receive at "+where)
 	return in.takeFrom(c)
+}
+
+// retract removes every receive announcement of g.
+func (in *Interp) retract(g *G) {
+	for _, c := range g.announced {
+		c.dropWaiter(g)
+	}
+	g.announced = nil
 }
 
 func (in *Interp) takeFrom(c *Chan) (Value, bool) {
@@ -340,14 +413,37 @@ func (in *Interp) putInto(c *Chan, v Value, where string) {
 		panic(goPanic{"send on closed channel at " + where})
 	}
 	c.buf = append(c.buf, copyVal(v))
-	if c.cap == 0 {
-		// rendezvous approximation: wait until the value has been taken
-		in.block(func() bool { return len(c.buf) == 0 }, "unbuffered send waiting for receiver at "+where)
+	if c.cap == 0 && len(c.waiters) > 0 {
+		// the value is handed to the first parked receiver: it is committed to this channel and
+		// no longer available to senders on the other channels of its select
+		w := c.waiters[0]
+		in.retract(w)
+		w.committed = c
+	}
+}
+
+// fairness: a goroutine that keeps taking immediately-ready channel operations (e.g. spinning on a
+// closed channel) is descheduled now and then so that the others make progress, as under a
+// preemptive scheduler.
+func (in *Interp) spinYield() {
+	g := in.cur
+	g.spin++
+	if g.spin < 64 {
+		return
+	}
+	g.spin = 0
+	for k := 1; k <= len(in.gs); k++ {
+		o := in.gs[(g.id+k)%len(in.gs)]
+		if o != g && o.runnable() {
+			in.switchTo(o)
+			return
+		}
 	}
 }
 
 func (in *Interp) selectStmt(fr *frame, x *ssa.Select) Value {
 	in.schedPoint("select")
+	in.spinYield()
 	type cs struct {
 		ch  *Chan
 		dir types.ChanDir
@@ -392,12 +488,39 @@ func (in *Interp) selectStmt(fr *frame, x *ssa.Select) Value {
 		if !x.Blocking {
 			return mkResult(-1, false, nil)
 		}
+		g := in.cur
+		for _, c := range cases {
+			if c.dir != types.SendOnly && c.ch != nil && c.ch.cap == 0 && c.ch.ctx == nil && c.ch.tick == nil {
+				c.ch.addWaiter(g)
+				g.announced = append(g.announced, c.ch)
+			}
+		}
 		in.block(func() bool { return len(ready()) > 0 }, "select at "+in.pos(x))
+		in.retract(g)
 		rs = ready()
+		if g.committed != nil {
+			// a sender handed us a value on that channel: that case must be taken
+			for _, i := range rs {
+				if cases[i].ch == g.committed && cases[i].dir != types.SendOnly {
+					rs = []int{i}
+					break
+				}
+			}
+			g.committed = nil
+		}
 	}
 	k := rs[0]
 	if len(rs) > 1 && in.schedExp {
-		k = rs[in.ex.choose(len(rs), "select")]
+		if in.pointSeen == nil {
+			in.pointSeen = map[pointKey]int{}
+		}
+		pk := pointKey{-1 - in.cur.id, x}
+		in.pointSeen[pk]++
+		if n := in.pointSeen[pk]; n <= 2 || !in.schedCoarse {
+			k = rs[in.ex.choose(len(rs), "select")]
+		} else {
+			k = rs[n%len(rs)] // a polling loop: rotate deterministically instead of branching again
+		}
 	}
 	c := cases[k]
 	if c.dir == types.SendOnly {
